@@ -309,6 +309,25 @@ theorem C14_rebuild_idem (find : Nat → Nat) (hid : ∀ x, find (find x) = find
       · rw [← h1]; exact h e' he'
   exact key t ([], []) (fun e he => by cases he)
 
+/-- the pass that also rewrites the entries' own ids (what the code runs) is the modelled pass
+whenever no stored container's id is displaced — the precondition the correspondence run checks -/
+theorem C14_rebuild_ids_canonical (find : Nat → Nat) (t : Tab) (h : ∀ e ∈ t, find e.1 = e.1) :
+    rebuildPassId find t = rebuildPass find t := by
+  have key : ∀ (l : Tab) (acc : Tab × List (Nat × Nat)), (∀ e ∈ l, find e.1 = e.1) →
+      l.foldl (passStepId find) acc = l.foldl (passStep find) acc := by
+    intro l
+    induction l with
+    | nil => intro acc _; rfl
+    | cons x l ih =>
+      intro acc hl
+      simp only [List.foldl_cons]
+      have hx : passStepId find acc x = passStep find acc x := by
+        unfold passStepId passStep
+        rw [hl x List.mem_cons_self]
+      rw [hx]
+      exact ih _ (fun e he => hl e (List.mem_cons_of_mem _ he))
+  exact key t ([], []) h
+
 /-- `register_val` is a hash-cons: the value is found afterwards under the id handed out -/
 theorem C14_intern_found (t : Tab) (next : Nat) (v : List Nat) :
     lookupVal (intern t next v).1 v = some (intern t next v).2.2 := by
